@@ -1,6 +1,7 @@
 package mat
 
 import (
+	"sort"
 	"encoding/binary"
 	"fmt"
 	"math/rand"
@@ -327,12 +328,45 @@ func (b *Builder) pickFC(open bool) (types.FileContractElement, bool) {
 	return types.FileContractElement{}, false
 }
 
+// pickFCFirst picks the FIRST member of a linear expiration list with two or more members whose
+// proof window has not opened yet (a revision of it must not move it within its list).
+func (b *Builder) pickFCFirst() (types.FileContractElement, bool) {
+	h := b.childHeight()
+	var ends []uint64
+	for end, ids := range b.L.Exp {
+		if len(ids) >= 2 {
+			ends = append(ends, end)
+		}
+	}
+	sort.Slice(ends, func(i, j int) bool { return ends[i] < ends[j] })
+	for _, end := range ends {
+		e, ok := b.L.FC[b.L.Exp[end][0]]
+		if !ok || b.used[types.Hash256(e.ID)] || e.FileContract.UnlockHash != b.W.Addr || e.FileContract.WindowStart <= h {
+			continue
+		}
+		b.used[types.Hash256(e.ID)] = true
+		return e.Copy(), true
+	}
+	return types.FileContractElement{}, false
+}
+
 // OpRev1 revises a v1 contract; shift moves the window end (0 = same window).
-func (b *Builder) OpRev1(shift uint64) bool {
+func (b *Builder) OpRev1(shift uint64) bool { return b.opRev1(shift, false) }
+
+// OpRev1First revises, without moving its window, the first member of a shared expiration list.
+func (b *Builder) OpRev1First() bool { return b.opRev1(0, true) }
+
+func (b *Builder) opRev1(shift uint64, first bool) bool {
 	if !b.v1OK() {
 		return false
 	}
-	e, ok := b.pickFC(false)
+	var e types.FileContractElement
+	var ok bool
+	if first {
+		e, ok = b.pickFCFirst()
+	} else {
+		e, ok = b.pickFC(false)
+	}
 	if !ok {
 		return false
 	}
@@ -660,6 +694,8 @@ func (b *Builder) Do(op string) bool {
 		return b.OpRev1(0)
 	case "rev1b":
 		return b.OpRev1(1)
+	case "rev1f": // same-window revision of the FIRST member of a shared expiration list
+		return b.OpRev1First()
 	case "sp1":
 		return b.OpSP1()
 	case "sc2":
